@@ -298,3 +298,335 @@ Proof.
         -- exact R.
   - exists l. repeat split; auto. discriminate.
 Qed.
+
+(** * 4. derive / attribute registrations are unions over the history *)
+Lemma kmap_get_extend m k d key :
+  kmap_get (kmap_extend m k d) key =
+  if String.eqb (k_key k) key
+  then Some (derives_union (kmap_get_or_empty m (k_key k)) d)
+  else kmap_get m key.
+Proof.
+  unfold kmap_get_or_empty.
+  induction m as [|[k' d'] m IH]; cbn [kmap_extend kmap_get].
+  - destruct (String.eqb (k_key k) key); reflexivity.
+  - destruct (String.eqb (k_key k') (k_key k)) eqn:E; cbn [kmap_get].
+    + apply String.eqb_eq in E. rewrite E. destruct (String.eqb (k_key k) key); reflexivity.
+    + rewrite IH. destruct (String.eqb (k_key k') key) eqn:E2; [|reflexivity].
+      apply String.eqb_eq in E2. rewrite <- E2, String.eqb_sym, E. reflexivity.
+Qed.
+
+(** the six observable components of the derive registry, as functions of the state *)
+Record dview := mk_dview {
+  dv_all_d : list kt; dv_all_a : list kt;
+  dv_key_d : bool -> string -> list kt; dv_key_a : bool -> string -> list kt;
+  dv_reg : bool -> string -> bool }.
+
+Definition side (dr : derives_registry) (rc : bool) : kmap :=
+  if rc then dr_recursive dr else dr_specific dr.
+
+Definition op_key_d (rc : bool) (key : string) (o : op) : list kt :=
+  match o with
+  | OpDerivesFor k ds r => if Bool.eqb r rc && String.eqb (k_key k) key then ds else []
+  | _ => []
+  end.
+Definition op_key_a (rc : bool) (key : string) (o : op) : list kt :=
+  match o with
+  | OpAttrsFor k a r => if Bool.eqb r rc && String.eqb (k_key k) key then a else []
+  | _ => []
+  end.
+Definition op_reg (rc : bool) (key : string) (o : op) : bool :=
+  match o with
+  | OpDerivesFor k _ r | OpAttrsFor k _ r => Bool.eqb r rc && String.eqb (k_key k) key
+  | _ => false
+  end.
+
+Lemma sub_ops_keep_dreg st o :
+  is_derive_op o = false -> b_dreg (step_state st o) = b_dreg st.
+Proof.
+  unfold step_state. destruct o as [ds|ats|k ds rc|k ats rc|s t|s t|l]; cbn [is_derive_op]; try discriminate; intros _.
+  - cbn [apply_op]. destruct (parse_substitution s t) as [e|[k v]]; reflexivity.
+  - cbn [apply_op]. destruct (parse_substitution s t) as [e|[k v]]; [reflexivity|].
+    destruct (subs_get (b_subs st) k); reflexivity.
+  - rewrite extend_exact. reflexivity.
+Qed.
+
+Lemma step_default_d st o :
+  d_derives (dr_default (b_dreg (step_state st o))) =
+  d_derives (dr_default (b_dreg st)) ++ match o with OpDerivesAll ds => ds | _ => [] end.
+Proof.
+  destruct (is_derive_op o) eqn:D.
+  - unfold step_state. destruct o as [ds|ats|k ds rc|k ats rc|s t|s t|l]; try discriminate;
+      cbn; try destruct rc; cbn; rewrite ?app_nil_r; reflexivity.
+  - rewrite sub_ops_keep_dreg by exact D. destruct o; try discriminate; rewrite app_nil_r; reflexivity.
+Qed.
+
+Lemma step_default_a st o :
+  d_attrs (dr_default (b_dreg (step_state st o))) =
+  d_attrs (dr_default (b_dreg st)) ++ match o with OpAttrsAll a => a | _ => [] end.
+Proof.
+  destruct (is_derive_op o) eqn:D.
+  - unfold step_state. destruct o as [ds|ats|k ds rc|k ats rc|s t|s t|l]; try discriminate;
+      cbn; try destruct rc; cbn; rewrite ?app_nil_r; reflexivity.
+  - rewrite sub_ops_keep_dreg by exact D. destruct o; try discriminate; rewrite app_nil_r; reflexivity.
+Qed.
+
+Lemma get_or_empty_extend m k d key :
+  kmap_get_or_empty (kmap_extend m k d) key =
+  if String.eqb (k_key k) key then derives_union (kmap_get_or_empty m key) d else kmap_get_or_empty m key.
+Proof.
+  unfold kmap_get_or_empty at 1. rewrite kmap_get_extend.
+  destruct (String.eqb (k_key k) key) eqn:E; [|reflexivity].
+  apply String.eqb_eq in E. rewrite E. reflexivity.
+Qed.
+
+Lemma step_key st o rc key :
+  let m := side (b_dreg st) rc in
+  let m' := side (b_dreg (step_state st o)) rc in
+  d_derives (kmap_get_or_empty m' key) = d_derives (kmap_get_or_empty m key) ++ op_key_d rc key o /\
+  d_attrs (kmap_get_or_empty m' key) = d_attrs (kmap_get_or_empty m key) ++ op_key_a rc key o /\
+  is_some (kmap_get m' key) = is_some (kmap_get m key) || op_reg rc key o.
+Proof.
+  cbv zeta.
+  destruct (is_derive_op o) eqn:D.
+  - unfold step_state, side.
+    destruct o as [ds|ats|k ds r|k ats r|s t|s t|l]; try discriminate;
+      cbn [apply_op fst b_dreg op_key_d op_key_a op_reg].
+    + destruct rc; cbn; rewrite !app_nil_r, orb_false_r; auto.
+    + destruct rc; cbn; rewrite !app_nil_r, orb_false_r; auto.
+    + destruct r, rc; cbn [dr_recursive dr_specific Bool.eqb andb];
+        rewrite ?app_nil_r, ?orb_false_r; auto;
+        rewrite get_or_empty_extend, kmap_get_extend;
+        destruct (String.eqb (k_key k) key); cbn; rewrite ?app_nil_r, ?orb_false_r, ?orb_true_r; auto.
+    + destruct r, rc; cbn [dr_recursive dr_specific Bool.eqb andb];
+        rewrite ?app_nil_r, ?orb_false_r; auto;
+        rewrite get_or_empty_extend, kmap_get_extend;
+        destruct (String.eqb (k_key k) key); cbn; rewrite ?app_nil_r, ?orb_false_r, ?orb_true_r; auto.
+  - rewrite sub_ops_keep_dreg by exact D.
+    destruct o; try discriminate; cbn; rewrite !app_nil_r, orb_false_r; auto.
+Qed.
+
+Lemma fold_default_d ops : forall st,
+  d_derives (dr_default (b_dreg (fold_left step_state ops st))) =
+  d_derives (dr_default (b_dreg st)) ++ spec_default_derives ops.
+Proof.
+  induction ops as [|o ops IH]; intros st; cbn [fold_left]; [cbn; rewrite app_nil_r; reflexivity|].
+  rewrite IH, step_default_d. unfold spec_default_derives. cbn [flat_map]. rewrite app_assoc. reflexivity.
+Qed.
+
+Lemma fold_default_a ops : forall st,
+  d_attrs (dr_default (b_dreg (fold_left step_state ops st))) =
+  d_attrs (dr_default (b_dreg st)) ++ spec_default_attrs ops.
+Proof.
+  induction ops as [|o ops IH]; intros st; cbn [fold_left]; [cbn; rewrite app_nil_r; reflexivity|].
+  rewrite IH, step_default_a. unfold spec_default_attrs. cbn [flat_map]. rewrite app_assoc. reflexivity.
+Qed.
+
+Lemma fold_key ops rc key : forall st,
+  let m := side (b_dreg st) rc in
+  let m' := side (b_dreg (fold_left step_state ops st)) rc in
+  d_derives (kmap_get_or_empty m' key) = d_derives (kmap_get_or_empty m key) ++ spec_key_derives rc key ops /\
+  d_attrs (kmap_get_or_empty m' key) = d_attrs (kmap_get_or_empty m key) ++ spec_key_attrs rc key ops /\
+  is_some (kmap_get m' key) = is_some (kmap_get m key) || spec_key_registered rc key ops.
+Proof.
+  cbv zeta. induction ops as [|o ops IH]; intros st; cbn [fold_left].
+  - cbn. rewrite !app_nil_r, orb_false_r. auto.
+  - destruct (IH (step_state st o)) as (H1 & H2 & H3).
+    destruct (step_key st o rc key) as (S1 & S2 & S3).
+    rewrite H1, H2, H3, S1, S2, S3.
+    unfold spec_key_derives, spec_key_attrs, spec_key_registered. cbn [flat_map existsb].
+    rewrite <- !app_assoc, <- orb_assoc. repeat split; reflexivity.
+Qed.
+
+(** EXACT content of the derive registry after any history (lists in call order;
+    the hash sets of the implementation are these lists read as sets) *)
+Theorem derives_after_history ops :
+  let dr := b_dreg (fst (run_ops ops)) in
+  d_derives (dr_default dr) = spec_default_derives ops /\
+  d_attrs (dr_default dr) = spec_default_attrs ops /\
+  forall rc key,
+    d_derives (kmap_get_or_empty (side dr rc) key) = spec_key_derives rc key ops /\
+    d_attrs (kmap_get_or_empty (side dr rc) key) = spec_key_attrs rc key ops /\
+    is_some (kmap_get (side dr rc) key) = spec_key_registered rc key ops.
+Proof.
+  cbv zeta. rewrite run_ops_fst. unfold final_state.
+  rewrite fold_default_d, fold_default_a. repeat split; try reflexivity;
+    destruct (fold_key ops rc key bstate_empty) as (H1 & H2 & H3);
+    destruct rc; cbn in *; auto.
+Qed.
+
+(** the same, as sets: membership = "some call of the right kind registered it" *)
+Theorem derives_union_sets ops :
+  let dr := b_dreg (fst (run_ops ops)) in
+  (forall x, In x (d_derives (dr_default dr)) <-> exists ds, In (OpDerivesAll ds) ops /\ In x ds) /\
+  (forall x, In x (d_attrs (dr_default dr)) <-> exists a, In (OpAttrsAll a) ops /\ In x a) /\
+  (forall rc key x, In x (d_derives (kmap_get_or_empty (side dr rc) key)) <->
+                    exists k ds, In (OpDerivesFor k ds rc) ops /\ k_key k = key /\ In x ds) /\
+  (forall rc key x, In x (d_attrs (kmap_get_or_empty (side dr rc) key)) <->
+                    exists k a, In (OpAttrsFor k a rc) ops /\ k_key k = key /\ In x a).
+Proof.
+  cbv zeta. destruct (derives_after_history ops) as (H1 & H2 & H3). cbv zeta in *.
+  rewrite H1, H2. repeat split.
+  - unfold spec_default_derives. rewrite in_flat_map. intros (o & Ho & Hx).
+    destruct o; try contradiction. eauto.
+  - intros (ds & Ho & Hx). unfold spec_default_derives. apply in_flat_map. exists (OpDerivesAll ds); auto.
+  - unfold spec_default_attrs. rewrite in_flat_map. intros (o & Ho & Hx).
+    destruct o; try contradiction. eauto.
+  - intros (a & Ho & Hx). unfold spec_default_attrs. apply in_flat_map. exists (OpAttrsAll a); auto.
+  - destruct (H3 rc key) as (K1 & _ & _). rewrite K1. unfold spec_key_derives. rewrite in_flat_map.
+    intros (o & Ho & Hx). destruct o as [| |k ds r| | | |]; try contradiction.
+    destruct (Bool.eqb r rc) eqn:Er; [|contradiction]. apply eqb_prop in Er; subst r.
+    destruct (String.eqb (k_key k) key) eqn:Ek; [|contradiction]. apply String.eqb_eq in Ek.
+    exists k, ds; auto.
+  - intros (k & ds & Ho & Ek & Hx). destruct (H3 rc key) as (K1 & _ & _). rewrite K1.
+    unfold spec_key_derives. apply in_flat_map. exists (OpDerivesFor k ds rc). split; [exact Ho|].
+    rewrite eqb_reflx, Ek, String.eqb_refl. exact Hx.
+  - destruct (H3 rc key) as (_ & K2 & _). rewrite K2. unfold spec_key_attrs. rewrite in_flat_map.
+    intros (o & Ho & Hx). destruct o as [| | |k a r| | |]; try contradiction.
+    destruct (Bool.eqb r rc) eqn:Er; [|contradiction]. apply eqb_prop in Er; subst r.
+    destruct (String.eqb (k_key k) key) eqn:Ek; [|contradiction]. apply String.eqb_eq in Ek.
+    exists k, a; auto.
+  - intros (k & a & Ho & Ek & Hx). destruct (H3 rc key) as (_ & K2 & _). rewrite K2.
+    unfold spec_key_attrs. apply in_flat_map. exists (OpAttrsFor k a rc). split; [exact Ho|].
+    rewrite eqb_reflx, Ek, String.eqb_refl. exact Hx.
+Qed.
+
+(** ** order and repetition of the calls are irrelevant *)
+Lemma flat_map_filter {A B} (f : A -> list B) (p : A -> bool) l :
+  (forall x, p x = false -> f x = []) -> flat_map f (filter p l) = flat_map f l.
+Proof.
+  intros H. induction l as [|x l IH]; cbn; [reflexivity|].
+  destruct (p x) eqn:E; cbn; rewrite IH; [reflexivity|]. rewrite (H x E). reflexivity.
+Qed.
+
+Lemma existsb_filter {A} (f : A -> bool) (p : A -> bool) l :
+  (forall x, p x = false -> f x = false) -> existsb f (filter p l) = existsb f l.
+Proof.
+  intros H. induction l as [|x l IH]; cbn; [reflexivity|].
+  destruct (p x) eqn:E; cbn; rewrite IH; [reflexivity|]. rewrite (H x E). reflexivity.
+Qed.
+
+Lemma perm_flat_map_set {A B} (f : A -> list B) l1 l2 :
+  Permutation l1 l2 -> set_eq (flat_map f l1) (flat_map f l2).
+Proof.
+  intros P x. rewrite !in_flat_map. split; intros (o & Ho & Hx); exists o; split; auto.
+  - eapply Permutation_in; eauto.
+  - eapply Permutation_in; [apply Permutation_sym|]; eauto.
+Qed.
+
+Lemma perm_existsb {A} (f : A -> bool) l1 l2 : Permutation l1 l2 -> existsb f l1 = existsb f l2.
+Proof.
+  intros P. destruct (existsb f l1) eqn:E1, (existsb f l2) eqn:E2; try reflexivity.
+  - apply existsb_exists in E1 as (x & Hx & Fx).
+    assert (existsb f l2 = true) by (apply existsb_exists; exists x; split; auto; eapply Permutation_in; eauto).
+    congruence.
+  - apply existsb_exists in E2 as (x & Hx & Fx).
+    assert (existsb f l1 = true)
+      by (apply existsb_exists; exists x; split; auto; eapply Permutation_in; [apply Permutation_sym|]; eauto).
+    congruence.
+Qed.
+
+Lemma set_eq_via_filter {B} (f : op -> list B) ops1 ops2 :
+  (forall o, is_derive_op o = false -> f o = []) ->
+  Permutation (filter is_derive_op ops1) (filter is_derive_op ops2) ->
+  set_eq (flat_map f ops1) (flat_map f ops2).
+Proof.
+  intros H P. rewrite <- (flat_map_filter f is_derive_op ops1 H), <- (flat_map_filter f is_derive_op ops2 H).
+  apply perm_flat_map_set; exact P.
+Qed.
+
+Theorem order_irrelevant ops1 ops2 :
+  Permutation (filter is_derive_op ops1) (filter is_derive_op ops2) ->
+  dreg_equiv (b_dreg (fst (run_ops ops1))) (b_dreg (fst (run_ops ops2))).
+Proof.
+  intros P.
+  destruct (derives_after_history ops1) as (A1 & A2 & A3).
+  destruct (derives_after_history ops2) as (B1 & B2 & B3). cbv zeta in *.
+  unfold dreg_equiv. rewrite A1, A2, B1, B2.
+  split; [|split].
+  - apply set_eq_via_filter; auto. intros [] D; try discriminate; reflexivity.
+  - apply set_eq_via_filter; auto. intros [] D; try discriminate; reflexivity.
+  - intros key.
+    destruct (A3 false key) as (S1 & S2 & S3), (A3 true key) as (R1 & R2 & R3).
+    destruct (B3 false key) as (S1' & S2' & S3'), (B3 true key) as (R1' & R2' & R3').
+    cbn [side] in *.
+    rewrite S1, S2, S3, R1, R2, R3, S1', S2', S3', R1', R2', R3'.
+    unfold spec_key_registered.
+    rewrite <- (existsb_filter _ is_derive_op ops1), <- (existsb_filter _ is_derive_op ops2)
+      by (intros [] D; try discriminate; reflexivity).
+    rewrite <- (existsb_filter (fun o => match o with
+                                        | OpDerivesFor k _ r | OpAttrsFor k _ r => Bool.eqb r true && String.eqb (k_key k) key
+                                        | _ => false end) is_derive_op ops1),
+            <- (existsb_filter (fun o => match o with
+                                        | OpDerivesFor k _ r | OpAttrsFor k _ r => Bool.eqb r true && String.eqb (k_key k) key
+                                        | _ => false end) is_derive_op ops2)
+      by (intros [] D; try discriminate; reflexivity).
+    rewrite (perm_existsb _ _ _ P), (perm_existsb _ _ _ P).
+    split; [reflexivity|]. split; [reflexivity|].
+    split; [|split; [|split]];
+      (apply set_eq_via_filter; [intros [] D; try discriminate; reflexivity|exact P]).
+Qed.
+
+(** every registered element comes from the arguments of some derive / attribute call *)
+Definition history_args (ops : list op) : list kt :=
+  flat_map (fun o => match o with
+                     | OpDerivesAll l | OpAttrsAll l | OpDerivesFor _ l _ | OpAttrsFor _ l _ => l
+                     | _ => []
+                     end) ops.
+
+Lemma flat_map_sub {A B} (f g : A -> list B) l :
+  (forall o x, In x (f o) -> In x (g o)) -> forall x, In x (flat_map f l) -> In x (flat_map g l).
+Proof. intros H x. rewrite !in_flat_map. intros (o & Ho & Hx). exists o; auto. Qed.
+
+Lemma registered_from_args ops :
+  let dr := b_dreg (fst (run_ops ops)) in
+  (forall x, In x (d_derives (dr_default dr)) -> In x (history_args ops)) /\
+  (forall x, In x (d_attrs (dr_default dr)) -> In x (history_args ops)) /\
+  (forall rc key x, In x (d_derives (kmap_get_or_empty (side dr rc) key)) -> In x (history_args ops)) /\
+  (forall rc key x, In x (d_attrs (kmap_get_or_empty (side dr rc) key)) -> In x (history_args ops)).
+Proof.
+  cbv zeta. destruct (derives_after_history ops) as (A1 & A2 & A3). cbv zeta in *.
+  rewrite A1, A2. split; [|split; [|split]].
+  - apply flat_map_sub. intros [] x; cbn; tauto.
+  - apply flat_map_sub. intros [] x; cbn; tauto.
+  - intros rc key. destruct (A3 rc key) as (-> & _ & _). apply flat_map_sub.
+    intros [] x; cbn; try tauto. destruct (_ && _); cbn; tauto.
+  - intros rc key. destruct (A3 rc key) as (_ & -> & _). apply flat_map_sub.
+    intros [] x; cbn; try tauto. destruct (_ && _); cbn; tauto.
+Qed.
+
+Lemma history_args_perm ops1 ops2 :
+  Permutation (filter is_derive_op ops1) (filter is_derive_op ops2) ->
+  set_eq (history_args ops1) (history_args ops2).
+Proof. intros P. apply set_eq_via_filter; auto. intros [] D; try discriminate; reflexivity. Qed.
+
+(** consequently the emitted tokens (sorted, duplicate free) are EQUAL *)
+Theorem order_irrelevant_emission ops1 ops2 :
+  key_functional (history_args ops1) ->
+  Permutation (filter is_derive_op ops1) (filter is_derive_op ops2) ->
+  let dr1 := b_dreg (fst (run_ops ops1)) in
+  let dr2 := b_dreg (fst (run_ops ops2)) in
+  derives_tokens (dr_default dr1) = derives_tokens (dr_default dr2) /\
+  forall key,
+    derives_tokens (kmap_get_or_empty (dr_specific dr1) key) = derives_tokens (kmap_get_or_empty (dr_specific dr2) key) /\
+    derives_tokens (kmap_get_or_empty (dr_recursive dr1) key) = derives_tokens (kmap_get_or_empty (dr_recursive dr2) key).
+Proof.
+  intros F P. cbv zeta.
+  pose proof (order_irrelevant ops1 ops2 P) as (E1 & E2 & E3).
+  pose proof (registered_from_args ops1) as (X1 & X2 & X3 & X4).
+  pose proof (registered_from_args ops2) as (Y1 & Y2 & Y3 & Y4). cbv zeta in *.
+  pose proof (history_args_perm ops1 ops2 P) as HP.
+  assert (KF : forall a b : list kt,
+             (forall x, In x a -> In x (history_args ops1)) ->
+             (forall x, In x b -> In x (history_args ops2)) -> key_functional (a ++ b)).
+  { intros a b Ha Hb. eapply key_functional_sub; [|exact F].
+    intros x Hx. apply in_app_or in Hx as [Hx|Hx]; auto. apply HP; auto. }
+  split.
+  - apply derives_tokens_canonical; auto.
+  - intros key. destruct (E3 key) as (_ & _ & S1 & S2 & R1 & R2). split.
+    + apply derives_tokens_canonical; auto.
+      * apply KF; [apply (X3 false key)|apply (Y3 false key)].
+      * apply KF; [apply (X4 false key)|apply (Y4 false key)].
+    + apply derives_tokens_canonical; auto.
+      * apply KF; [apply (X3 true key)|apply (Y3 true key)].
+      * apply KF; [apply (X4 true key)|apply (Y4 true key)].
+Qed.
